@@ -320,7 +320,8 @@ func copyToLayer(base Fs, layer Fs, name string) error {
 }
 
 func copyFileToLayer(base Fs, layer Fs, name string, flag int, perm os.FileMode) error {
-	bfh, err := base.OpenFile(name, flag, perm)
+	// the copy reads from the start of the file: O_APPEND would position the handle at its end
+	bfh, err := base.OpenFile(name, flag&^os.O_APPEND, perm)
 	if err != nil {
 		return err
 	}
